@@ -112,6 +112,7 @@ type c10Cfg struct {
 	Frontend bool
 	DelayUpd time.Duration
 	DelayAut time.Duration
+	SlowHash bool // users hashed with an expensive parameter set: a login burst keeps the dispatcher busy for many seconds
 	Policy   bool // a password policy that the upgradeable users' passwords fail: every login-triggered upgrade fails
 }
 
@@ -158,6 +159,7 @@ func TestVerifC10(t *testing.T) {
 		cfgs = append(cfgs, c10Cfg{Name: fmt.Sprintf("cfg%d-%s", i, m), Mode: m, Clients: []int{4, 16, 40, 64}[rng.Intn(4)], Requests: nreq,
 			Hooks: i%2 == 0, Frontend: i%3 == 0, Policy: m == "local" && i%2 == 1, DelayUpd: time.Duration(rng.Intn(4)) * time.Millisecond, DelayAut: time.Duration(rng.Intn(2)) * 200 * time.Microsecond})
 	}
+	cfgs = append(cfgs, c10Cfg{Name: "cfg-slowhash", Mode: "", Clients: 64, Requests: 64 * vr.Pick(1, 6), SlowHash: true})
 	occ := map[string]int{}
 	for _, c := range cfgs {
 		if !R.Want(c.Name) {
@@ -182,6 +184,16 @@ func c10Run(R *vr.Result, rng *rand.Rand, c c10Cfg, occ map[string]int) {
 	}
 	for i := 0; i < 4; i++ {
 		users = append(users, ovlUser{Name: fmt.Sprintf("u%d", i), Pw: "pw", Set: 1})
+	}
+	if c.SlowHash {
+		// about 100 ms per verification: 64 clients x a few logins queue up for well over 5 s
+		key := make([]byte, 32)
+		sets = append(sets, ref.ParamSet{ID: 9, Algo: ref.AlgoScrypt, HmacKey: key, Cost: 15, R: 8, P: 1})
+		for i := range users {
+			if strings.HasPrefix(users[i].Name, "up") && i < 40 {
+				users[i].Set = 9
+			}
+		}
 	}
 	st := ovlMkStore(rng, dir, sets, 1, users)
 	hooksDir := ""
@@ -279,6 +291,13 @@ func c10Run(R *vr.Result, rng *rand.Rand, c c10Cfg, occ map[string]int) {
 		}
 		atomic.AddInt64(&issued, 1)
 		k := r.Intn(100)
+		if c.SlowHash {
+			i := r.Intn(36) + 1
+			iface.Authenticate(fmt.Sprintf("up%d", i-1+1), fmt.Sprintf("uppw%d", i-1+1)) //nolint:errcheck
+			atomic.AddInt64(&inflight, -1)
+			atomic.AddInt64(&completed, 1)
+			return
+		}
 		switch {
 		case k < 45: // login of an upgradeable user (each user at most once per phase -> always upgradeable on first use)
 			i := int(atomic.AddInt64(&upNext, 1)) % nup
